@@ -464,7 +464,7 @@ def _concrete_algebra(d, graded, parity_of):
     return alg, names, canon2bin, ifg
 
 
-def vc_new(H):
+def vc_new(H, only=None, order=False):
     """The real body of MultiVector.__new__ is interpreted with *opaque coefficient values* and *symbolic spelling parities*
     over concrete small default-basis algebras (d = 2, 3) and the construction forms below (bounded in shapes, unbounded in
     values and parities).  Post: the (blade -> coefficient) view handed to fromkeysvalues is exactly the supplied one."""
@@ -493,7 +493,13 @@ def vc_new(H):
               (2, 'graded: incomplete grade', dict(keys=(1,), nvals=1, graded=True, expect='ValueError')),
               (2, 'graded: complete grade', dict(keys=(1, 2), nvals=2, graded=True)),
               (2, 'name only', dict(name='x')),
-              (2, 'name + keys', dict(name='x', keys=(3, 1)))]
+              (2, 'name + keys', dict(name='x', keys=(3, 1))),
+              (3, 'name + keys, descending vector', dict(name='x', keys=(4, 2, 1))),
+              (3, 'name + keys, binary order', dict(name='x', keys=(0, 1, 2, 3, 4, 5, 6, 7))),
+              (3, 'name only', dict(name='x'))]
+    if only == 'symbolic':
+        # the supplier contract the operator dictionaries rely on: symbolic operands keep the key order they were asked for
+        cases = [c for c in cases if 'name' in c[2]]
     for d, label, spec in cases:
         def body(ctx, d=d, label=label, spec=spec):
             par = {}
@@ -562,8 +568,12 @@ def vc_new(H):
             got = dict(zip(a[1], a[2]))
             if 'name' in spec:
                 exp_keys = spec.get('keys') or ifg[tuple(range(d + 1))]
-                ok = tuple(a[1]) == tuple(exp_keys) and all(v == ('SYMBOL', 'x' + names[kk][1:]) for kk, v in got.items())
-                ctx.oblige(f'new[{label}]: one symbol per key, named name + blade digits, keys in the given order', bool(ok), meta={'got': repr(got)})
+                ok = set(a[1]) == set(exp_keys) and all(v == ('SYMBOL', 'x' + names[kk][1:]) for kk, v in got.items())
+                ctx.oblige(f'new[{label}]: one symbol per requested key, named name + blade digits', bool(ok), meta={'got': repr(got)})
+                if order:
+                    # needed by the operator dictionaries (generated functions unpack their operands positionally), not by C15
+                    ctx.oblige(f'new[{label}]: the symbolic operand stores its keys in the order asked for', tuple(a[1]) == tuple(exp_keys),
+                               meta={'got': repr(a[1]), 'asked': repr(tuple(exp_keys))})
                 return r
             # expected view: supplied (blade -> value), non-canonical spellings re-keyed with their parity sign
             expv = {}
@@ -590,7 +600,7 @@ def vc_new(H):
                     want = Rec('unop', 'USub', e[1]) if odd else e[1]
                     ctx.oblige(f'new[{label}]: permuted spelling of {names[K]} carries the coefficient times the permutation parity',
                                same(got[K], want), meta={'got': repr(got[K]), 'expected': repr(want)})
-            if 'kw' not in spec and 'mapping' not in spec and 'keys' in spec:
+            if order and 'kw' not in spec and 'mapping' not in spec and 'keys' in spec:
                 ctx.oblige(f'new[{label}]: keys keep the given order', tuple(a[1]) == tuple(canon2bin[x] if isinstance(x, str) else x for x in spec['keys']))
             return r
         H.run_paths(fuc, f'd={d},{label}', body)
